@@ -42,6 +42,9 @@ CHECKS = {
  "C03": ("property-based testing with an independent decoder as oracle (differential against harness-written framing / decompression / header rules), including raw h2 peers that share no code with tonic",
          "Every body tonic's EncodeBody produces (both roles, all encodings, source errors, encode failures; polled past the end) and every request/response tonic puts on an in-memory HTTP/2 connection (raw h2 server facing generated clients, raw h2 client facing generated servers) is parsed by the harness's own frame parser, magic-checked and independently decompressed, and checked against the header and trailers rules of the gRPC HTTP/2 protocol document.",
          "flate2 / zstd are trusted as independent decompressors (different API path than tonic's); h2 crate trusted as the HTTP/2 peer.", "4/C03"),
+ "C13": ("property-based testing over shutdown histories (schedules): event- and time-placed signal relative to concurrent calls, invariants over the recorded history, virtual-time liveness watchdog",
+         "serve_with_incoming_shutdown over in-memory pipes with 1-3 connections x 1-4 unary/streaming calls; the shutdown signal is placed at a virtual time or triggered by a handler event (entered / sent message j / completed); history invariants: entered handlers are never cancelled and their callers see the scripted outcome, nothing is accepted after the signal, the serve future resolves with client channels alive and only after every accepted connection closed.",
+         "Schedules inside hyper/h2/tokio are explored through fragmentation, seeded select! order and event-placed signals, not enumerated; liveness is decided inside the closed virtual-time world.", "4/C13"),
 }
 NOT_YET = {}
 def main():
